@@ -137,7 +137,7 @@ func VerifC03Script() {
 			}, v)
 			want = append(want, vEvent{kind: 5, rows: 1, value: int64(val)})
 		case pkException:
-			depth := verifIntRange("chain", 1, 2)
+			depth := verifIntRange("chain", 1, verifParam("maxchain", 3))
 			script.uv(2)
 			exName, exMsg, exStack = verifStr("ex.name", 1), verifStr("ex.msg", 1), verifStr("ex.stack", 1)
 			for d := 0; d < depth; d++ {
@@ -146,7 +146,7 @@ func VerifC03Script() {
 				if d == 0 {
 					script.srvException(code, exName, exMsg, exStack, depth > 1)
 				} else {
-					script.srvException(code, "n2", "m2", "s2", false)
+					script.srvException(code, "n2", "m2", "s2", d+1 < depth)
 				}
 			}
 			exception = true
